@@ -11,6 +11,15 @@ from core import *
 
 NEEDS = ["Jacobian", "JacobianProofs", "JacobianReal", "Corr"]
 GUARD_DELAYED = "no_delayed_factor_in_j0"
+
+
+def _switch(name):
+    """value of a boolean model switch `Definition <name> : bool := true|false.` in coq/theories/Jacobian.v"""
+    m = re.search(rf"Definition {name} : bool := (true|false)\.", open(os.path.join(COQ, "theories", "Jacobian.v")).read())
+    return m.group(1) == "true"
+
+
+FIXED_D08B = _switch("fixed_D08b")      # true: the model (and the generator) assume the repair of D08b is in the code
 STATE_NAMES = ["x", "z", "v", "w"]
 PARAM_NAMES = ["a", "b", "k"]
 INTER_NAMES = ["m", "g"]
@@ -78,6 +87,8 @@ def bits(e, env):
         a = bits(e[1], env)
         return (a[0] * e[2], a[1] * e[2])
     if k == "fn":
+        if e[1] == "exp":       # 2^(4*a) with |a| <= 2, or 2^(4*(a +- b))
+            return (8, 8) if e[2][2][0] == "v" else (16, 16)
         a = bits(e[2], env)
         return a if e[1] == "absv" else (2 * a[0] + 2, 2 * a[1] + 3)       # stand-ins have degree 2
     raise ValueError(e)
@@ -121,7 +132,7 @@ def _sig_names(src, fname):
 
 STANDINS = {   # polynomial stand-ins for the transcendental functions (the same polynomials as Jacobian.Qc_fn)
     "sigmoid": lambda v: v * v * 0.25 + 0.25,
-    "exp": lambda v: v * v * 0.5 + v + 1.0,
+    "exp": lambda v: 2.0 ** v,          # exact on the integral arguments the generator produces; homomorphism like exp
     "sin": lambda v: v * 0.5,
     "cos": lambda v: 1.0 - v * v * 0.5,
     "tanh": lambda v: v * 0.25,
@@ -138,6 +149,8 @@ def patch_standins(func):
 
 
 def impl(case):
+    if case.get("auto"):
+        return auto_impl(case)
     import numpy as np
     import pyr
     from pyr import fracs, frac
@@ -238,6 +251,50 @@ def impl(case):
     return out
 
 
+NPARX = 40          # length of the PAR array handed to the compiled auto-07p routines
+
+
+def auto_impl(case):
+    """auto-07p export (backend='fortran', auto=True) compiled through f2py: FUNC(..., IJAC=2, ...) at the points -> F, DFDU, DFDP"""
+    import importlib
+    import numpy as np
+    import pyr
+    from pyr import fracs, frac
+    sys.path.insert(0, os.getcwd())
+    fname = "ma" + str(abs(hash(canon(case))) % 10 ** 8)
+    pyr.reset_pyrates()
+    try:
+        f, args, names, smap = build_circuit(case).get_run_func("vfx", step_size=1e-3, file_name=fname, backend="fortran",
+                                                                float_precision="float64", auto=True, vectorize=False, solver="scipy", verbose=False)
+        smap = {k: int(v) for k, v in smap.items()}
+        consts = {}
+        for line in open("c.ivp").read().split("\n"):
+            if line.startswith("parnames") or line.startswith("unames"):
+                k, v = line.split(" = ", 1)
+                consts[k.strip()] = eval(v.strip(), {"__builtins__": {}})
+        slots = sorted(consts.get("parnames", {}))
+        pnames = list(names[3:])
+        assert len(slots) == len(pnames), (consts, names)
+        defaults = {nm: frac(np.asarray(v).reshape(-1)[0]) for nm, v in zip(pnames, args[3:])}
+        mod = importlib.import_module(fname)
+        nd = len(smap)
+        res = []
+        for pt in case["points"]:
+            y = np.zeros(nd)
+            for nm, i in smap.items():
+                y[i] = float(Fr(pt["y"][nm]))
+            par = np.zeros(NPARX)
+            for sl, nm in zip(slots, pnames):
+                par[sl - 1] = float(Fr(pt["params"][nm])) if nm in pt["params"] else float(Fr(defaults[nm]))
+            dfdu = np.zeros((nd, nd), order="F"); dfdp = np.zeros((nd, NPARX), order="F")
+            dyv = mod.func(y, np.zeros(1, dtype=np.int32), par, 2, dfdu, dfdp)
+            res.append(dict(F=fracs(dyv), dfdu=[fracs(r) for r in dfdu], dfdp=[fracs(r) for r in dfdp]))
+        return dict(smap_run=smap, slots=[[int(sl), nm] for sl, nm in zip(slots, pnames)], defaults=defaults, res=res,
+                    unames=[[int(k), v] for k, v in sorted(consts.get("unames", {}).items())])
+    finally:
+        pyr.reset_pyrates()
+
+
 def support_impl(case):
     """support stream: transcendental models, J against central differences of the run function (float64)"""
     import numpy as np
@@ -277,7 +334,7 @@ def dy(rng, lo, hi, den, nonzero=False):
             return str(v)
 
 
-def gen_case(rng, allow_viol=False, absv=False, want_delay=None, fns=False):
+def gen_case(rng, allow_viol=False, absv=False, want_delay=None, fns=False, nparams=None, distinct_weights=False):
     nn = rng.choice([1, 2, 2, 3])
     while True:
         ns = [rng.randint(1, 3) for _ in range(nn)]
@@ -299,11 +356,19 @@ def gen_case(rng, allow_viol=False, absv=False, want_delay=None, fns=False):
                 edges.append([s, src, t, dy(rng, -2, 2, 4, nonzero=True), d])
     # unit-weight undelayed edges whose source also feeds a delayed edge, bare copies `m = s_in` (nested identity markers, repaired by
     # fix D50) and lone sin / cos calls (import of derivative-only functions, fix D51) are part of the stream
+    if distinct_weights:        # the auto stream identifies an edge weight argument by (target node, value)
+        for t in range(nn):
+            ws = [Fr(1)]
+            for e in edges:
+                if e[2] == t:
+                    while Fr(e[3]) in ws:
+                        e[3] = dy(rng, -2, 2, 4, nonzero=True)
+                    ws.append(Fr(e[3]))
     nodes, cls_inter, bits_inter = [], {}, {}
     viol = False
     for i in range(nn):
         st = STATE_NAMES[:ns[i]]
-        params = [[p, dy(rng, -2, 2, 4, nonzero=True)] for p in PARAM_NAMES[:rng.randint(1, 3)]]
+        params = [[p, dy(rng, -2, 2, 4, nonzero=True)] for p in (PARAM_NAMES + [f"p{q}" for q in range(9)])[:nparams or rng.randint(1, 3)]]
         tau = None
         if delays and rng.random() < 0.7:
             tau = "tau"; params.append(["tau", dy(rng, 0, 2, 4, nonzero=True)])
@@ -332,7 +397,13 @@ def gen_case(rng, allow_viol=False, absv=False, want_delay=None, fns=False):
             a = rng.choice(pool)
             r = rng.random()
             if fns and rng.random() < 0.3:
-                f = rng.choice(["sigmoid", "sigmoid", "tanh", "sincos"])    # no exp: sympy merges exp(u)*exp(v)
+                f = rng.choice(["sigmoid", "sigmoid", "tanh", "sincos", "exp"])
+                if f == "exp":          # integral argument: 4 * (state or parameter, multiples of 1/4), see Jacobian.Qc_exp2
+                    base = [["v", s_] for s_ in st] + pars
+                    u = rng.choice(base)
+                    if r < 0.3:
+                        u = [rng.choice("+-"), u, rng.choice(base)]
+                    return ["fn", "exp", ["*", ["c", "4"], u]]
                 # arguments that cannot cancel symbolically (cos(b - b) -> 1 removes the import of cos from the module)
                 arg = a if r < 0.4 else ["*", a, rng.choice(pool)] if r < 0.7 else ["+", ["*", a, rng.choice(pool)], ["c", dy(rng, 0, 1, 4, nonzero=True)]]
                 if f == "sincos" and rng.random() < 0.5:
@@ -428,6 +499,19 @@ def gen_case(rng, allow_viol=False, absv=False, want_delay=None, fns=False):
     return case
 
 
+def gen_auto_case(rng, many=None):
+    """polynomial ODE model for the auto-07p export; every other model has >= 10 parameters (reserved PAR slots 11-14 are crossed)"""
+    while True:
+        many = (rng.random() < 0.6) if many is None else many
+        case = gen_case(rng, want_delay=False, nparams=(rng.randint(5, 9) if many else None), distinct_weights=True)
+        npar = sum(len(nd["params"]) for nd in case["nodes"]) + len(case["edges"])
+        if not many or npar >= 10:
+            break
+    case["auto"] = True; case["sparse"] = False; case["solver"] = "scipy"
+    case["points"] = case["points"][:2]
+    return case
+
+
 def has_delay(case):
     return any(e[4] is not None for e in case["edges"]) or any(
         x[0] == "past" for nd in case["nodes"] for _, e in [(s[0], s[2]) for s in nd["states"]] + [tuple(i) for i in nd["inters"]] for x in walk(e))
@@ -484,7 +568,7 @@ Definition okI := on_points (fun s r obs _ => forallb (result_eqb (jac_impl QcO 
 Definition okS := on_points (fun s r obs _ => forallb (result_eqb (jac_spec QcO s r)) obs).
 Definition okF := on_points (fun s r _ obsF => qrow_eqb (vf QcO (fun c => c) s r) obsF).
 Definition g_wf (c : kase) := wf (fst c) && forallb execb (rhs (fst c)) && forallb (fun ma => execb (snd ma)) (algs (fst c)).
-Definition g_delayed (c : kase) := no_delayed_factor_in_j0 QcO (fst c).
+Definition g_delayed (c : kase) := fixed_D08b || no_delayed_factor_in_j0 QcO (fst c).
 """
 
 
@@ -589,6 +673,83 @@ def coq_case(case, out):
     return f"({sysT}, {clist(pts)})"
 
 
+HEADER_AUTO = """From Coq Require Import List ZArith QArith Qcanon Bool.
+From PV Require Import Jacobian Corr.
+Import ListNotations.
+Local Open Scope nat_scope.
+(* point = variables (states, parameters, edge weights), observed F, DFDU, DFDP (all NPAR columns) *)
+Definition apoint := (list (nat * Qc) * list Qc * list (list Qc) * list (list Qc))%type.
+(* model, parameter id per PAR slot (an id that does not occur for an unused slot), points *)
+Definition akase := (sys Qc * list nat * list apoint)%type.
+Definition on_apoints (f : sys Qc -> list nat -> (atom -> Qc) -> list Qc -> list (list Qc) -> list (list Qc) -> bool) (c : akase) : bool :=
+  let '(s, cols, pts) := c in forallb (fun p => let '(vars, oF, oU, oP) := p in f s cols (env (states s) vars []) oF oU oP) pts.
+Definition okI := on_apoints (fun s cols r _ oU oP => qmat_eqb (eval_mat QcO r (dfdu_mat QcO s)) oU && qmat_eqb (eval_mat QcO r (dfdp_mat QcO cols s)) oP).
+Definition okS := on_apoints (fun s cols r _ oU oP => qmat_eqb (spec_rect QcO s r (states s)) oU && qmat_eqb (spec_rect QcO s r cols) oP).
+Definition okF := on_apoints (fun s _ r oF _ _ => qrow_eqb (vf QcO (fun c => c) s r) oF).
+Definition g_wf (c : akase) := let '(s, _, _) := c in wf s && forallb execb (rhs s) && forallb (fun ma => execb (snd ma)) (algs s).
+"""
+
+
+def coq_sys(case, order, ids, pre, weight_id=None):
+    rhs_of = {pre[nd["name"]] + s[0]: to_coq(s[2], pre[nd["name"]], ids) for nd in case["nodes"] for s in nd["states"]}
+    algs = []
+    for nd in case["nodes"]:
+        inc = [e for e in case["edges"] if e[2] == nd["name"]]
+        if inc:
+            tot = None
+            for k, (sn, sv, tn, w, d) in enumerate(inc):
+                src = f"(At (AV {ids.var(pre[sn] + sv)}))" if d is None else f"(At (AP {ids.var(pre[sn] + sv)} {ids.lit(d)}))"
+                wid = weight_id(tn, w) if weight_id else None
+                term = f"(Mul (At (AV {wid})) {src})" if wid is not None else f"(Mul (Cst {cq(w)}) {src})"
+                tot = term if tot is None else f"(Add {tot} {term})"
+            algs.append(f"({ids.var(pre[nd['name']] + 's_in')}, {tot})")
+        for nm, e in nd["inters"]:
+            algs.append(f"({ids.var(pre[nd['name']] + nm)}, {to_coq(e, pre[nd['name']], ids)})")
+    return f"(mksys {clist([str(ids.var(k)) for k in order])} {clist([rhs_of[k] for k in order])} {clist(algs)})"
+
+
+def coq_case_auto(case, out):
+    ids = Ids(case)
+    pre = {nd["name"]: f"{nd['name']}/op{i}/" for i, nd in enumerate(case["nodes"])}
+    smap = out["smap_run"]
+    order = sorted(smap, key=lambda k: smap[k])
+    assert sorted(smap.values()) == list(range(len(smap))) and set(order) == set(all_states(case)), smap
+    # PAR slot -> model variable: operator parameters by frontend name, edge weights by (target node, default value)
+    wids, col_of_slot = {}, {}
+    for sl, nm in out["slots"]:
+        if nm in ids.ids:
+            col_of_slot[sl] = ids.var(nm)
+        else:
+            assert "weight" in nm, nm
+            tn = nm.split("/")[0]; w = Fr(out["defaults"][nm])
+            assert sum(1 for e in case["edges"] if e[2] == tn and Fr(e[3]) == w) == 1, (nm, w, case["edges"])
+            wids[(tn, w)] = col_of_slot[sl] = 2000 + len(wids)
+    sysT = coq_sys(case, order, ids, pre, weight_id=lambda tn, w: wids.get((tn, Fr(w))))
+    cols = [col_of_slot.get(sl, 9000 + sl) for sl in range(1, NPARX + 1)]
+    pts = []
+    for pi, pt in enumerate(case["points"]):
+        vars_ = [f"({ids.var(k)}, {cq(v)})" for k, v in pt["y"].items()] + [f"({ids.var(k)}, {cq(v)})" for k, v in pt["params"].items()]
+        vars_ += [f"({wid}, {cq(w)})" for (tn, w), wid in wids.items()]
+        r = out["res"][pi]
+        mat = lambda m: clist([clist([cq(x) for x in row]) for row in m])
+        pts.append(f"({clist(vars_)}, {clist([cq(r['F'][smap[k]]) for k in order])}, {mat(r['dfdu'])}, {mat(r['dfdp'])})")
+    return f"({sysT}, {clist([str(c) for c in cols])}, {clist(pts)})"
+
+
+def model_compare_auto(ctx, cases, outs, tag):
+    res = dict(badI=[], badS=[], badF=[], wf=[], delayed=[])
+    shard = 20
+    for s in range(0, len(cases), shard):
+        terms = [coq_case_auto(c, o) for c, o in zip(cases[s:s + shard], outs[s:s + shard])]
+        body = ("Definition cases : list akase := " + clist(terms) + ".\n" +
+                "".join(f"Eval vm_compute in (mismatches {f} cases).\n" for f in ("okI", "okS", "okF", "g_wf")))
+        ls = parse_nat_lists(coq_eval(ctx, f"c12_auto_{tag}_{s}", HEADER_AUTO, body))
+        assert len(ls) == 4, ls
+        for key, l in zip(("badI", "badS", "badF", "wf"), ls):
+            res[key] += [s + i for i in l]
+    return res
+
+
 def check_defaults(case, out):
     """every argument of the generated functions is either a parameter set by the point or an edge weight the model knows"""
     ws = sorted(Fr(e[3]) for e in case["edges"])
@@ -609,6 +770,12 @@ def check_defaults(case, out):
 
 def model_compare(ctx, cases, outs, tag):
     """index lists: bad vs Impl, bad vs Spec, vector field differs, and the guards violated"""
+    ia = [i for i, c in enumerate(cases) if c.get("auto")]
+    if ia:
+        io = [i for i in range(len(cases)) if i not in ia]
+        ra = model_compare_auto(ctx, [cases[i] for i in ia], [outs[i] for i in ia], tag)
+        ro = model_compare(ctx, [cases[i] for i in io], [outs[i] for i in io], tag) if io else {k: [] for k in ra}
+        return {k: sorted([ia[j] for j in ra[k]] + [io[j] for j in ro[k]]) for k in ro}
     res = dict(badI=[], badS=[], badF=[], wf=[], delayed=[])
     shard = 40
     for s in range(0, len(cases), shard):
@@ -623,6 +790,16 @@ def model_compare(ctx, cases, outs, tag):
 
 
 def model_outputs(ctx, case, out, tag):
+    if case.get("auto"):
+        body = (f"Definition c : akase := {coq_case_auto(case, out)}.\n"
+                "Definition s0 := fst (fst c). Definition cols := snd (fst c).\n"
+                "Definition r0 := match snd c with (vars, _, _, _) :: _ => env (states s0) vars [] | [] => fun _ => 0%Qc end.\n"
+                "Eval vm_compute in (spec_rect QcO s0 r0 (states s0)).\nEval vm_compute in (spec_rect QcO s0 r0 cols).\n"
+                "Eval vm_compute in (vf QcO (fun c => c) s0 r0).\n")
+        try:
+            return coq_eval(ctx, f"c12_show_{tag}", HEADER_AUTO, body)[:6000]
+        except Exception as e:
+            return f"(model evaluation failed: {e})"
     body = (f"Definition c : kase := {coq_case(case, out)}.\n"
             "Definition r0 := let '(s, pts) := c in match pts with (vars, hist, _, _) :: _ => env (states s) vars hist | [] => fun _ => 0%Qc end.\n"
             "Eval vm_compute in (jac_spec QcO (fst c) r0).\nEval vm_compute in (jac_impl QcO (fst c) r0).\n"
@@ -637,6 +814,9 @@ def nontrivial(case, out):
     """>= 2 state variables and some non-diagonal entry that is not identically 0 at the points"""
     if len(out.get("smap_run", {})) < 2:
         return False
+    if case.get("auto"):        # some off-diagonal DFDU entry or some DFDP entry is non-zero
+        return any(Fr(x) != 0 for r in out["res"] for i, row in enumerate(r["dfdu"]) for j, x in enumerate(row) if i != j) or \
+               any(Fr(x) != 0 for r in out["res"] for row in r["dfdp"] for x in row)
     for r in out["dense"]["res"]:
         if "raised" in r:
             continue
@@ -677,6 +857,7 @@ def check(ctx):
     problem = proof_problem(pr)
     listed = {f.get("guard") for f in known_findings("C12")}
     n_main, n_sup = (110, 12) if ctx.tier == "quick" else (1500, 150)
+    n_auto = 3 if ctx.tier == "quick" else 24           # auto-07p export through f2py: ~6 s per model
     if problem:
         n_main *= 3
     pending = []
@@ -686,13 +867,15 @@ def check(ctx):
         n_sup = 0
     else:
         corpus = load_corpus("C12")
-        pending = [c for c in corpus if c.get("finding_guard") and c["finding_guard"] not in listed]
+        pending = [c for c in corpus if c.get("finding_guard") and c["finding_guard"] not in listed
+                   and not (FIXED_D08B and c["finding_guard"] == GUARD_DELAYED)]
         cases = [c for c in corpus if c not in pending]
         for k in range(n_main):
             r = ctx.rng.random()
-            cases.append(gen_case(ctx.rng, allow_viol=(GUARD_DELAYED in listed and r < 0.1),
+            cases.append(gen_case(ctx.rng, allow_viol=((FIXED_D08B or GUARD_DELAYED in listed) and r < 0.1),
                                   absv=(0.1 <= r < 0.25),
                                   want_delay=(True if k % 2 == 0 else None), fns=(k % 4 == 1)))
+        cases += [gen_auto_case(ctx.rng, many=(True if k % 3 < 2 else None)) for k in range(n_auto)]
     outs = run_impl(ctx, "c12", "impl", cases, per_case_timeout=90)
     crashed = [i for i, r in enumerate(outs) if "err" in r]
     skipped = [i for i, r in enumerate(outs) if "skip" in r]
@@ -702,7 +885,7 @@ def check(ctx):
     assert len(skipped) <= max(2, len(cases) // 5), "too many models without a reference vector field"
     for i in range(len(cases)):
         if i not in crashed and i not in skipped:
-            msg = check_defaults(cases[i], outs[i])
+            msg = None if cases[i].get("auto") else check_defaults(cases[i], outs[i])
             if msg:
                 outs[i] = {"err": "harness", "msg": msg}; crashed.append(i)
     good = [i for i in range(len(cases)) if i not in crashed and i not in skipped]
@@ -713,11 +896,14 @@ def check(ctx):
     for i in res["delayed"]:
         guard_viol.setdefault(i, []).append(GUARD_DELAYED)
     bad_impl = sorted(set(res["badI"]) | set(res["badF"]))
-    smap_diff = [i for i in good if outs[i]["smap_run"] != outs[i]["dense"]["smap"]]
+    smap_diff = [i for i in good if not cases[i].get("auto") and outs[i]["smap_run"] != outs[i]["dense"]["smap"]]
+    n_au = [i for i in good if cases[i].get("auto")]
+    ctx.note(f"auto-07p stream: {len(n_au)} models compiled with backend='fortran', auto=True through f2py, FUNC(IJAC=2) at 2 points each: F, DFDU and all "
+             f"{NPARX} DFDP columns compared exactly; models with >= 10 PAR slots used: {sum(1 for i in n_au if len(outs[i]['slots']) >= 10)}")
     ctx.note(f"E1: {len(cases)} models x 3 points ({sum(1 for c in cases if has_delay(c))} with delays, "
              f"{sum(1 for i in good if 'sparse' in outs[i])} also compiled with sparse=True); J-vs-Impl mismatches {len(res['badI'])}, "
              f"J-vs-Spec mismatches {len(res['badS'])}, vector-field-vs-model mismatches {len(res['badF'])}, harness/worker errors {len(crashed)}, "
-             f"outside guard: delayed factor {len(res['delayed'])}; with absv: {sum(1 for c in cases if any(x[0] == 'fn' and x[1] == 'absv' for nd in c['nodes'] for q in [s_[2] for s_ in nd['states']] + [i_[1] for i_ in nd['inters']] for x in walk(q)))}; state maps of run/jacobian differ: {len(smap_diff)}")
+             f"outside guard: delayed factor {len(res['delayed'])}; with exp: {sum(1 for c in cases if any(x[0] == 'fn' and x[1] == 'exp' for nd in c['nodes'] for q in [s_[2] for s_ in nd['states']] + [i_[1] for i_ in nd['inters']] for x in walk(q)))}, with absv: {sum(1 for c in cases if any(x[0] == 'fn' and x[1] == 'absv' for nd in c['nodes'] for q in [s_[2] for s_ in nd['states']] + [i_[1] for i_ in nd['inters']] for x in walk(q)))}; state maps of run/jacobian differ: {len(smap_diff)}")
 
     # pending finding witnesses (in corpus/, finding not yet listed in known_findings.json): replayed and reported, never silent
     if pending:
@@ -760,10 +946,11 @@ def check(ctx):
                 with_delay=sum(1 for c in cases if has_delay(c)), with_delayed_edge=sum(1 for c in cases if any(e[4] for e in c["edges"])),
                 with_intermediates=sum(1 for c in cases if any(nd["inters"] for nd in c["nodes"])),
                 with_edges=sum(1 for c in cases if c["edges"]), sparse_too=sum(1 for c in cases if c.get("sparse")),
-                history_matrices=sum(len(r["hist"]) for i in good for r in outs[i]["dense"]["res"][:1] if "hist" in r),
+                history_matrices=sum(len(r["hist"]) for i in good if not cases[i].get("auto") for r in outs[i]["dense"]["res"][:1] if "hist" in r),
+                auto_export_models=len(n_au), auto_models_with_10_or_more_parameters=sum(1 for i in n_au if len(outs[i]["slots"]) >= 10),
                 delayed_var_not_first=sum(1 for c in cases for nd in c["nodes"] for s in nd["states"] for x in walk(s[2])
                                           if x[0] == "past" and x[1] != nd["states"][0][0]))
-    write_evidence(ctx, evaluations=3 * len(cases), distinct_nontrivial=len(nt),
+    write_evidence(ctx, evaluations=sum(len(c["points"]) for c in cases), distinct_nontrivial=len(nt),
                    rule="random scalar polynomial models (vectorize=False, default backend, float64): 1-3 nodes, 2-4 state variables, algebraic "
                         "intermediates, edges between nodes (also from intermediates), past() with parameter or literal delays on (mostly) non-first "
                         "variables, delayed edges; 3 random dyadic (state, parameter, history) points per model; every entry of J0 and of every history "
